@@ -66,6 +66,11 @@ class Contract:
         # are therefore neither obligated here nor assumed at the call sites of this constructor (the constructor of the
         # concrete class is obligated to them)
         self.inv_exempt = list(getattr(impl, "inv_exempt", []) or [])
+        # definitions(s) -> dict label -> clause: defining equations of ghost predicates at the arguments of this call
+        # (`ghost(args) == <closed formula>`): assumed when the body of this function is verified, never obligated and not
+        # assumed at call sites (callers reason about the ghost predicate only through this contract).  A conservative
+        # extension as long as each clause defines a fresh uninterpreted symbol; listed in the evidence.
+        self.definitions = getattr(impl, "definitions", None)
 
     def clauses(self, which: str, s) -> List[Tuple[str, Any]]:
         fn = getattr(self, which)
